@@ -4,7 +4,8 @@ Monitor 1 (artefact-only, defined-before-use): every output model is replayed op
 (vv.defuse): graph inputs and CPU-operator outputs define their arena extents, NPU operations and DMAs must read only defined bytes (exact
 footprints) and define what they write, table slots in SHRAM are defined by DMA and invalidated by operations whose buffers cover them, and after
 each Ethos-U operator all of its output tensors must be completely defined.
-Monitor 2/3 (writer tags, poison differential) ride on the NPU executor: see checks/c01.py (shared executor) - their counters are reported there.
+Monitor 3 (poison differential): the artefact is executed twice in the NPU model (vv.npuexec) with different arena / fast-scratch poison patterns and the same inputs;
+the outputs must be identical.  Row-granular writer tags for rolling buffers are checked with C10 (same hook data).
 """
 import numpy as np
 
@@ -92,6 +93,34 @@ def check(c, viol, counters):
                     sh.define(1, interval(offs[ti], art.tensor_bytes(ti)))
 
 
+def poison_differential(c, viol, counters):
+    """monitor 3: the compiled inference must be a function of the model inputs alone - execute the artefact in the NPU model with two different
+    arena / fast-scratch poison patterns and identical inputs; any output difference means uninitialised or stale bytes were consumed"""
+    from checks import c01
+    from vv import fbr, npuexec, tfref
+
+    src = fbr.RModel(c.src_bytes)
+    ssg = src.subgraphs[0]
+    rng = np.random.default_rng(np.random.SeedSequence([303, c.case["nseed"]]))
+    ins = c01.rand_inputs(rng, ssg, 0)
+    by_name = {ssg.tensors[ti].name: v for ti, v in ins.items()}
+    try:
+        a = c01.run_output_model(c.art, c.case["cfg"]["acc"], by_name, 0xA5, {})
+        b = c01.run_output_model(c.art, c.case["cfg"]["acc"], by_name, 0x3C, {})
+    except (npuexec.Unmodelled, tfref.Unsupported):
+        counters["poison_unmodelled"] = counters.get("poison_unmodelled", 0) + 1
+        return
+    except npuexec.ExecError as e:
+        counters["poison_exec_error"] = counters.get("poison_exec_error", 0) + 1
+        return
+    counters["poison_differentials"] = counters.get("poison_differentials", 0) + 1
+    for name in a:
+        if not np.array_equal(a[name], b.get(name)):
+            d = np.argwhere(a[name] != b[name])
+            viol.setdefault("output-depends-on-arena-poison", {"mech": "output-depends-on-arena-poison", "msg": "output %s differs between two arena poison patterns at %d positions (first %s)" % (name, len(d), d[0].tolist()),
+                                                               "witness": c.witness()})
+
+
 def run_case(case):
     c = campaign.Compiled(case)
     counters = {"compilations": 1, "compiled_ok": 0}
@@ -100,6 +129,7 @@ def run_case(case):
         if c.art is not None:
             counters["compiled_ok"] = 1
             check(c, viol, counters)
+            poison_differential(c, viol, counters)
     finally:
         c.cleanup()
     return {"violations": list(viol.values()), "counters": counters,
@@ -111,11 +141,12 @@ def summarise(agg, tier):
     q = tier == "quick"
     return {
         "thresholds": {"compiled_ok": 300 if q else 9000, "ops_replayed": 5000 if q else 150000, "bytes_read_checked": 5000000 if q else 200000000, "lut_dmas": 50 if q else 2000,
-                       "lut_reads": 100 if q else 4000, "npu_outputs_checked": 300 if q else 9000},
+                       "lut_reads": 100 if q else 4000, "npu_outputs_checked": 300 if q else 9000, "poison_differentials": 250 if q else 7000},
         "rule": "compile campaign over cascade-heavy (stripe-stress), buffering-heavy (buffer-stress), LUT-heavy (lut-stress, half on accelerators without reserved LUT banks), "
                 "alias-prone, CPU/NPU-interleaved and regular families x random configurations with small caches; every read of every decoded operation is checked per byte "
                 "interval against the shadow 'defined' set. distinct = (family, accelerator, cache, ops replayed) classes",
-        "assumptions": ["monitor 1 only: uninitialised reads, incompletely written outputs and invalidated table slots; stale / foreign-tensor bytes need writer tags (executor-based monitor)",
+        "assumptions": ["monitor 1 decides uninitialised reads, incompletely written outputs and invalidated table slots; monitor 3 (poison differential in the NPU model) decides whether "
+                        "any consumed byte was not produced by this inference; stale-but-initialised bytes are decided by C01 (wrong result) and the C10 rolling-buffer tags",
                         "SHRAM table state is not assumed to survive from one command stream to the next"],
         "max_inconclusive_frac": 0.05,
     }
